@@ -1,6 +1,6 @@
 (* EstRun.v — run commands of the `formats` family (drivers only). *)
 From Coq Require Import String.
-From Cedar Require Export Codec Est.
+From Cedar Require Export Codec EstSet.
 Open Scope string_scope.
 
 Fixpoint d_json (s : sexp) : option json :=
@@ -91,7 +91,73 @@ Definition run_est_conditions (args : list sexp) : sexp :=
   | _ => bad_input
   end.
 
+Definition e_eref (r : eref) : sexp := match r with RefSlot => SY "slot" | RefUid u => e_uid u end.
+Definition e_prconstraint (c : prconstraint) : sexp :=
+  match c with
+  | CAny => SY "any"
+  | CEq r => SL [SY "eq"; e_eref r]
+  | CIn r => SL [SY "in"; e_eref r]
+  | CIs t => SL [SY "is"; e_name t]
+  | CIsIn t r => SL [SY "isin"; e_name t; e_eref r]
+  end.
+Definition e_aconstraint (c : aconstraint) : sexp :=
+  match c with
+  | AAny => SY "any"
+  | AEq u => SL [SY "eq"; e_uid u]
+  | AIn us => SL [SY "in"; e_list e_uid us]
+  end.
+Definition e_effect (e : effect) : sexp := SY (match e with Permit => "permit" | Forbid => "forbid" end).
+Definition e_template (t : template) : sexp :=
+  SL [SY "template"; SS (tid t); e_list (fun kv => SL [SS (fst kv); SS (snd kv)]) (tannot t);
+      e_effect (teffect t); e_prconstraint (tprincipal t); e_aconstraint (taction t);
+      e_prconstraint (tresource t); e_opt e_expr (tbody t)].
+
+(* (template_to_est <template>) *)
+Definition run_template_to_est (args : list sexp) : sexp :=
+  match args with
+  | [t] => match d_template t with Some t => e_json (template_to_est t) | None => bad_input end
+  | _ => bad_input
+  end.
+
+(* (est_to_template <id> <json>) *)
+Definition run_est_to_template (args : list sexp) : sexp :=
+  match args with
+  | [SS id; j] => match d_json j with
+                  | Some j => e_res e_template (est_to_template id j)
+                  | None => bad_input
+                  end
+  | _ => bad_input
+  end.
+
+Definition e_env (env : slotenv) : sexp := e_list (fun su => SL [e_slot (fst su); e_uid (snd su)]) env.
+Definition e_pol (p : policy) : sexp :=
+  SL [SY "policy"; e_template (ptemplate p); e_opt SS (plink p); e_env (penv p)].
+Definition e_pset (s : pset) : sexp :=
+  SL [SY "pset"; e_list (fun it => e_template (snd it)) (ps_templates s);
+      e_list (fun it => SL [SS (fst it); e_pol (snd it)]) (ps_links s)].
+
+(* (est_to_pset <json>) : the ast-level set built from a policy-set document *)
+Definition run_est_to_pset (args : list sexp) : sexp :=
+  match args with
+  | [j] => match d_json j with Some j => e_res e_pset (est_to_pset j) | None => bad_input end
+  | _ => bad_input
+  end.
+
+(* (set_rt <json>) : the document produced from the set built from the document *)
+Definition run_set_rt (args : list sexp) : sexp :=
+  match args with
+  | [j] => match d_json j with
+           | Some j => e_res e_json (do s <- est_to_pset j; Ok (estset_to_est (pset_to_estset s)))
+           | None => bad_input
+           end
+  | _ => bad_input
+  end.
+
 Definition run_formats (cmd : string) (args : list sexp) : option sexp :=
   if sym_eqb cmd "est_of_body" then Some (run_est_of_body args)
   else if sym_eqb cmd "est_conditions" then Some (run_est_conditions args)
+  else if sym_eqb cmd "template_to_est" then Some (run_template_to_est args)
+  else if sym_eqb cmd "est_to_template" then Some (run_est_to_template args)
+  else if sym_eqb cmd "est_to_pset" then Some (run_est_to_pset args)
+  else if sym_eqb cmd "set_rt" then Some (run_set_rt args)
   else None.
